@@ -117,6 +117,15 @@ def run(ctx):
         if m is None:
             R.stat("structural_id_terms_segwit_txid", "not read (decided by C04.6)")
             continue
+        def _record_method(t):
+            return tm.contains(t, lambda u: isinstance(u, T) and u.op == "app" and isinstance(u.args[0], str) and u.args[0].startswith("m:") and u.args[1] and
+                               isinstance(u.args[1][0], T) and u.args[1][0].op == "bv")
+        if _record_method(m["inb"]) or _record_method(m["outb"]):
+            # the parsed inputs / outputs are records that serialise THEMSELVES (ti.serialize()): over a buffer of unknown
+            # structure the summary does not know the records' class, so the per-field terms cannot be read -- the ids are
+            # decided by the round trips on built transactions (C04.6), which inline those methods on concrete records
+            R.stat("structural_id_terms_segwit_txid", "not read: elements serialise themselves (decided by C04.6)")
+            continue
         R.check("C04.2", "TERM-EQ", fi, "segwit: re-serialised input = txin(outpoint(txid, vout), scriptsig, sequence)",
                 tm.veq(m["inb"], in_body), "input re-serialisation: %s" % tm.first_diff(m["inb"], in_body),
                 expected=tm.show(in_body), found=tm.show(m["inb"]),
